@@ -119,7 +119,8 @@ func (l *Lexer) readLeadingComments() {
 				l.hadNewlineBefore = true
 				l.ReadChar()
 			}
-			l.leadingComments = append(l.leadingComments, strings.TrimRight(comment.String(), " "))
+			// trailing blanks are dropped, and so is the CR of a CR LF line ending
+			l.leadingComments = append(l.leadingComments, strings.TrimRight(comment.String(), " \r"))
 		}
 
 		if !isWhitespace(l.CurrentChar) {
